@@ -338,6 +338,9 @@ def cache_starts_with_boundary(ctx):
                 isinstance(a, ast.Name) and a.id == v.id for a in d.args))]
             return bool(defs) and all(zeros(d, depth + 1) for d in defs)
         return False
+    for attr_ in found:
+        if not found[attr_] and any(isinstance(n_, ast.Constant) and n_.value == attr_ for n_ in ast.walk(fi.node)):
+            raise AnalysisError(f"TDGLSolver.__init__ assigns `{attr_}` through a table of names (setattr): outside what this rule reads")
     c_ok = bool(found["terminal_current_densities"]) and all(zero_dict(v) for v in found["terminal_current_densities"])
     b_ok = bool(found["mu_boundary"]) and all(zeros(v) for v in found["mu_boundary"])
     ctx.ob("R01.4", "the change-detection cache and the boundary array it describes are created together by the constructor (all zero)", c_ok and b_ok,
